@@ -76,7 +76,7 @@ def evaluate(sid, checks, tier="quick"):
     return res
 
 
-def sideeval(sid, slot, checks, tier="quick"):
+def sideeval(sid, slot, checks, tier="quick", base=None):
     """Like evaluate(), but in a scratch worktree /tmp/ev/<slot> through lib/sidecheck.sh: /repo is not touched."""
     d = os.path.join(VERIF, "seeded", sid)
     wt = f"/tmp/ev/{slot}"
@@ -88,7 +88,7 @@ def sideeval(sid, slot, checks, tier="quick"):
     try:
         for c in checks:
             t0 = time.time()
-            rc, o = sh(f"TIER={tier} {VERIF}/lib/sidecheck.sh {wt} {slot} {c}", VERIF, timeout=14400)
+            rc, o = sh(f"TIER={tier} {('BPPV_SRC=' + base + ' ') if base else ''}{VERIF}/lib/sidecheck.sh {wt} {slot} {c}", VERIF, timeout=14400)
             lines = o.splitlines()
             viol = [l for l in lines if l.startswith("VIOLATION")]
             ok = any(l.startswith("OK property") for l in lines)
@@ -99,7 +99,7 @@ def sideeval(sid, slot, checks, tier="quick"):
         sh("git checkout -- .", wt)
     mp = os.path.join(d, "meta.json")
     meta = json.load(open(mp))
-    meta["detected_by"].update(res)
+    meta.setdefault("first_run", {}).update(res) if base else meta["detected_by"].update(res)
     json.dump(meta, open(mp, "w"), indent=1)
     return res
 
@@ -113,6 +113,9 @@ if __name__ == "__main__":
             print("kept:", keep(pid, m, c))
         else:
             print(c.get("suite_output", ""))
+    elif sys.argv[1] == "sideeval_base":
+        # the framework as it was BEFORE it was strengthened for this round (a worktree of /verif at that commit)
+        print(json.dumps(sideeval(sys.argv[2], sys.argv[3], sys.argv[4:], base="/var/tmp/verif-base"), indent=1))
     elif sys.argv[1] == "sideeval":
         print(json.dumps(sideeval(sys.argv[2], sys.argv[3], sys.argv[4:]), indent=1))
     elif sys.argv[1] == "eval":
